@@ -9,9 +9,9 @@
           runBTR r σ  agrees with  X86.step i st   on every register, flag, memory byte and the next address
 
   WHAT IS PROVED HERE (all of it universal over operand values / register contents / states; nothing is bounded):
-    (A) mirror + theorem, INSTRUCTION LEVEL (`lift_correct_rr/ri/un/rm/mr/mi/lea/setcc/cmov/jcc/test/xchg/extend/push64/pop64/ret64/call64`): 64-bit mode,
+    (A) mirror + theorem, INSTRUCTION LEVEL (`lift_correct_rr/ri/un/rm/mr/mi/lea/setcc/cmov/jcc/test/xchg/extend/push64/pop64/ret64/call64/ret_imm16/leave/push_imm64/call_r64`): 64-bit mode,
         {mov add sub cmp and or xor} x (reg,reg | reg,imm | reg,[mem] | [mem],reg | [mem],imm), lea, and
-        {inc dec neg not} x register, setcc r8, cmovcc r,r and jcc rel (14 codes each), test r,r|r,imm, xchg r,r, movzx/movsx/movsxd r,r, push r64, pop r64, ret, call rel32 (next address = the loaded value / the target); memory operands = base + index*scale + disp with 64-bit registers or rip, mapped
+        {inc dec neg not} x register, setcc r8, cmovcc r,r and jcc rel (14 codes each), test r,r|r,imm, xchg r,r, movzx/movsx/movsxd r,r, push r64, pop r64, ret, ret imm16 (immediate zero-extended), call rel32, call r64 (next address = the loaded value / the target), leave, push imm (64-bit operand); memory operands = base + index*scale + disp with 64-bit registers or rip, mapped
         and non-wrapping accesses; registers at every operand size and shape — 64-bit, 32-bit (zero-extending), 16-bit, low byte, and the high-byte
         registers ah/ch/dh/bh — every pair of registers (aliasing included), every state: `runBTR` of the mirrored
         `BlockTranslationResult` agrees with `X86.step` on all sixteen general registers, CF ZF SF OF, memory and the
@@ -449,6 +449,68 @@ theorem lift_correct_call64 (addr len t bytes : Nat) (haddr : addr + len < 2 ^ 6
     (hwrap : (st.gpr 4 - 8#64).toNat + 8 ≤ 2 ^ 64) :
     ∃ ops, opsCall64 addr len t = .ok ops ∧ AgreesTo (straight addr len ops) σ (insCall addr len t bytes) st (t % 2 ^ 64) :=
   lift_call64 addr len t bytes haddr σ st hok bs hmap hwrap
+
+/-- **lift_correct_ret_imm16**: `ret imm16` — the IL pops the return address (load at `rsp`, `rsp += 8`), adds the
+    immediate to `rsp` and branches to the loaded value.  The end state is given explicitly: the new stack pointer is
+    `rsp + 8 + (v mod 2^16)`, the immediate ZERO-extended (`v`: the decoder's immediate, of any reported width), both for
+    the IL run of the mirrored `BlockTranslationResult` and for `X86.step`.  Premise: the eight bytes at `rsp` are mapped
+    and do not wrap. -/
+theorem lift_correct_ret_imm16 (addr len v bytes : Nat) (σ : State) (st : St) (hok : Abs σ st) (bs : List UInt8)
+    (hmap : st.mem.readBytes (st.gpr 4).toNat 8 = some bs) (hwrap : (st.gpr 4).toNat + 8 ≤ 2 ^ 64) :
+    ∃ ops σ', opsRetImm64 addr v = .ok ops ∧
+      runBTR { addr := addr, length := len, instrs := [oneBlock addr ops], succs := [] } σ = .next σ' [natOfLE bs] ∧
+      X86.step (insRetImm addr len v bytes) st =
+        .ok (setReg st (rsp 64) (st.gpr 4 + 8#64 + BitVec.ofNat 64 (v % 2 ^ 16))) (natOfLE bs) [] ∧
+      Abs σ' (setReg st (rsp 64) (st.gpr 4 + 8#64 + BitVec.ofNat 64 (v % 2 ^ 16))) :=
+  lift_retImm64 addr len v bytes σ st hok bs hmap hwrap
+
+/-- **ret_imm16_zero_extends**: `ret 0x8000` from `rsp = 0x1000` ends with `rsp = 0x9008` in the IL state; a lifter that
+    sign-extends the immediate would end with `rsp = 0xffff_ffff_ffff_9008`, and its IL differs from the mirror. -/
+theorem ret_imm16_zero_extends (addr len : Nat) (σ : State) (st : St) (hok : Abs σ st) (bs : List UInt8)
+    (hsp : st.gpr 4 = 0x1000#64) (hmap : st.mem.readBytes 0x1000 8 = some bs) :
+    ∃ ops σ', opsRetImm64 addr 0x8000 = .ok ops ∧
+      runBTR { addr := addr, length := len, instrs := [oneBlock addr ops], succs := [] } σ = .next σ' [natOfLE bs] ∧
+      σ'.get "rsp" = some (ofBV 0x9008#64) := by
+  obtain ⟨ops, σ', h1, h2, _, h4⟩ := lift_retImm64 addr len 0x8000 2 σ st hok bs (by rw [hsp]; exact hmap) (by rw [hsp]; decide)
+  refine ⟨ops, σ', h1, h2, ?_⟩
+  have := h4.gpr 4 (by decide)
+  rw [show rsp 64 = ⟨4, 64, 0⟩ from rfl, gpr_setReg64, hsp] at this
+  exact this
+
+/-- **lift_correct_leave**: `leave` — `rsp := rbp`, load eight bytes there, `rsp += 8`, `rbp :=` the loaded value;
+    premise: the eight bytes at `rbp` are mapped and do not wrap. -/
+theorem lift_correct_leave (addr len : Nat) (haddr : addr + len < 2 ^ 64) (σ : State) (st : St) (hok : Abs σ st)
+    (bs : List UInt8) (hmap : st.mem.readBytes (st.gpr 5).toNat 8 = some bs) (hwrap : (st.gpr 5).toNat + 8 ≤ 2 ^ 64) :
+    ∃ ops, opsLeave64 addr = .ok ops ∧ Agrees (straight addr len ops) σ (insLeave addr len) st :=
+  lift_leave64 addr len haddr σ st hok bs hmap hwrap
+
+/-- **lift_correct_push_imm64**: `push imm8` / `push imm32` with the 64-bit operand size — `v` is the immediate as the
+    decoder reports it (capstone: already sign-extended to 64 bits, operand size 8 bytes); the IL stores `v mod 2^64`
+    at `rsp - 8` and subtracts 8 from `rsp`, as `X86.step` does (whose value is `sext` of the 64-bit immediate).  The
+    sign extension from 8 or 32 bits itself is the decoder's, not the lifter's, and is outside this theorem. -/
+theorem lift_correct_push_imm64 (addr len v : Nat) (haddr : addr + len < 2 ^ 64) (σ : State) (st : St) (hok : Abs σ st)
+    (bs : List UInt8) (hmap : st.mem.readBytes (st.gpr 4 - 8#64).toNat 8 = some bs)
+    (hwrap : (st.gpr 4 - 8#64).toNat + 8 ≤ 2 ^ 64) :
+    ∃ ops, opsPushImm64 v = .ok ops ∧ AgreesM (straight addr len ops) σ (insPushImm addr len v) st :=
+  lift_pushImm64 addr len v haddr σ st hok bs hmap hwrap
+
+/-- **lift_correct_call_r64**: `call r64` for every register — the target is copied to a temporary BEFORE the return
+    address is stored at `rsp - 8` and `rsp` is decremented; the IL run's single successor and the next address of
+    `X86.step` are both the register's value in the START state. -/
+theorem lift_correct_call_r64 (i : Nat) (hi : i < 16) (addr len : Nat) (haddr : addr + len < 2 ^ 64) (σ : State) (st : St)
+    (hok : Abs σ st) (bs : List UInt8) (hmap : st.mem.readBytes (st.gpr 4 - 8#64).toNat 8 = some bs)
+    (hwrap : (st.gpr 4 - 8#64).toNat + 8 ≤ 2 ^ 64) :
+    ∃ ops, opsCallReg64 addr len ⟨i, 64, 0⟩ = .ok ops ∧
+      AgreesTo (straight addr len ops) σ (insCallReg addr len ⟨i, 64, 0⟩) st (st.gpr i).toNat :=
+  lift_callReg64 i hi addr len haddr σ st hok bs hmap hwrap
+
+/-- **call_rsp_targets_old_rsp**: `call rsp` continues at the OLD stack pointer (not at `rsp - 8`) -/
+theorem call_rsp_targets_old_rsp (addr len : Nat) (haddr : addr + len < 2 ^ 64) (σ : State) (st : St)
+    (hok : Abs σ st) (bs : List UInt8) (hmap : st.mem.readBytes (st.gpr 4 - 8#64).toNat 8 = some bs)
+    (hwrap : (st.gpr 4 - 8#64).toNat + 8 ≤ 2 ^ 64) :
+    ∃ ops, opsCallReg64 addr len (rsp 64) = .ok ops ∧
+      AgreesTo (straight addr len ops) σ (insCallReg addr len (rsp 64)) st (st.gpr 4).toNat :=
+  lift_callReg64 4 (by decide) addr len haddr σ st hok bs hmap hwrap
 
 /-! ### non-vacuity -/
 
